@@ -268,7 +268,7 @@ def run(ctx: Ctx):
             ctx.check(r is None, "set-order-confined", where,
                       f"the iteration order of `{ast.unparse(node)[:60]}` can reach the output: {r}", rel, node.lineno,
                       sample={"set": where})
-    ctx.floor("set constructions in generator/", nsets, 9)
+    ctx.floor("set constructions in generator/", nsets, 4)     # obligations, not witnesses: fewer sets is fewer things to confine
 
     # ---------------------------------------------------------------- (2) id_ / uuid
     nid = 0
